@@ -178,5 +178,8 @@ Example ex_source_literals :
   /\ indent4 = stub_class_body_prefix
   /\ lines_multi "" [FSlash] = [TLayout (String nl stub_wrapped_param_indent); TSlash]
   /\ toks_text (join_single [FSlash; FSlash]) = ("/" ++ stub_single_line_separator ++ "/")%string
-  /\ lines_text (join_parts [[LBlank]; [LBlank]]) = string_of_list_ascii (repeat nl stub_part_separator_newlines).
+  /\ lines_text (join_parts [[LBlank]; [LBlank]]) = string_of_list_ascii (repeat nl stub_part_separator_newlines)
+  /\ stub_strip_pattern = "(?<![\w.])(?:%s)\."%string
+  /\ strip_text ["typing"; "a.b"; "a"] "typing.Dict[str, a.b.C, mytyping.X, a.D, x.a.E, typing.Optional[a.b.typing.Q]]"
+     = "Dict[str, C, mytyping.X, D, x.a.E, Optional[typing.Q]]"%string.
 Proof. vm_compute. repeat split; reflexivity. Qed.
